@@ -379,6 +379,9 @@ impl<'a> Searcher<'a> {
                 }
             }
 
+            #[cfg(fselect_verif)]
+            crate::verif::emit("root", &[("ino", crate::verif::ino_followed(root_dir))]);
+
             let _result = self.visit_dir(
                 root_dir,
                 min_depth,
@@ -395,6 +398,9 @@ impl<'a> Searcher<'a> {
             );
         }
         
+        #[cfg(fselect_verif)]
+        crate::verif::emit("done", &[]);
+
         let compute_time = std::time::Instant::now();
 
         // ======== Compute results =========
@@ -622,11 +628,17 @@ impl<'a> Searcher<'a> {
                 for entry in entry_list {
                     if !self.is_buffered() && self.query.limit > 0 && self.query.limit <= self.found
                     {
+                        #[cfg(fselect_verif)]
+                        crate::verif::emit("break", &[]);
                         break;
                     }
 
                     match entry {
                         Ok(entry) => {
+                            #[cfg(fselect_verif)]
+                            let found_before = self.found;
+                            #[cfg(fselect_verif)]
+                            let mut verif_logged = false;
                             let mut path = entry.path();
                             let pass_ignores = if apply_gitignore || apply_hgignore || apply_dockerignore {
                                 let mut canonical_path = path.clone();
@@ -734,6 +746,16 @@ impl<'a> Searcher<'a> {
                                                     },
                                                     _ => None,
                                                 };
+                                                #[cfg(fselect_verif)]
+                                                {
+                                                    verif_logged = true;
+                                                    crate::verif::emit("entry", &[
+                                                        ("ino", format!("\"{}\"", entry.ino())),
+                                                        ("reported", (self.found > found_before).to_string()),
+                                                        ("descend", crate::verif::text("dfs")),
+                                                    ]);
+                                                }
+
                                                 let result = self.visit_dir(
                                                     &path,
                                                     min_depth,
@@ -758,6 +780,16 @@ impl<'a> Searcher<'a> {
                                                 }
                                             } else {
                                                 self.dir_queue.push_back(path);
+
+                                                #[cfg(fselect_verif)]
+                                                {
+                                                    verif_logged = true;
+                                                    crate::verif::emit("entry", &[
+                                                        ("ino", format!("\"{}\"", entry.ino())),
+                                                        ("reported", (self.found > found_before).to_string()),
+                                                        ("descend", crate::verif::text("enqueue")),
+                                                    ]);
+                                                }
                                             }
                                         }
                                     } else {
@@ -765,6 +797,15 @@ impl<'a> Searcher<'a> {
                                         path_error_message(&path, result.err().unwrap());
                                     }
                                 }
+                            }
+
+                            #[cfg(fselect_verif)]
+                            if !verif_logged {
+                                crate::verif::emit("entry", &[
+                                    ("ino", format!("\"{}\"", entry.ino())),
+                                    ("reported", (self.found > found_before).to_string()),
+                                    ("descend", crate::verif::text("no")),
+                                ]);
                             }
                         }
                         Err(err) => {
@@ -780,9 +821,14 @@ impl<'a> Searcher<'a> {
             }
         }
 
+        #[cfg(fselect_verif)]
+        crate::verif::emit("leave", &[("ino", crate::verif::ino_followed(dir))]);
+
         if traversal_mode == Bfs && process_queue {
             while !self.dir_queue.is_empty() {
                 let path = self.dir_queue.pop_front().unwrap();
+                #[cfg(fselect_verif)]
+                crate::verif::emit("dequeue", &[("ino", crate::verif::ino_followed(&path))]);
                 #[cfg(feature = "git")]
                 let repo;
                 #[cfg(feature = "git")]
@@ -814,6 +860,9 @@ impl<'a> Searcher<'a> {
                     path_error_message(&path, result.err().unwrap());
                 }
             }
+
+            #[cfg(fselect_verif)]
+            crate::verif::emit("drained", &[]);
         }
 
         Ok(())
